@@ -12,7 +12,7 @@ variant := j2i | j2l                 JoinSortedStreams / LeftJoinSortedStreams  
                                      the row of element (key,tag) of a source of width w is [8*tag, 8*tag+1, .., 8*tag+w-1]
 obs := "ok <rows>" | "err <class> <rows delivered before the error>"       rows := "-" | row;row;...
 row := slot+slot(+slot..)            slot := key:tag | _                                     (j2*, jn*)
-     | stamp@tag+_+tag               (ts*)          | stamp@c,c,n,c   (ds*, n = nil)
+     | stamp@tag+_+tag               (ts*)          | stamp@c,c,n,c   (ds*, n = nil; stamp = unix nanoseconds)
 
 Spec verdict: when the inputs satisfy the property's sortedness hypotheses the observation must be exactly
 "ok" + the nested-loop specification's rows; otherwise the property says nothing (verdict true) but the model
@@ -65,7 +65,8 @@ def plus (l : List String) : String := "+".intercalate l
 def cellsOf (w : Nat) (e : Elem) : TsRec (List Cell) :=
   (e.1, (List.range w).map (fun j => some (Int.ofNat (8 * e.2 + j))))
 
-def fmtStamped (stamp : Int) (body : String) : String := s!"{stamp}@{body}"
+/-- timestamps travel as unix nanoseconds (`time.Unix(key,0).UnixNano()`) -/
+def fmtStamped (stamp : Int) (body : String) : String := s!"{stamp * 1000000000}@{body}"
 def fmtCells (cs : List Cell) : String := ",".intercalate (cs.map fmtCell)
 
 /-- Specification-side padding of a joined datasource row: present side = its cells, absent side = `w` nils. -/
@@ -154,6 +155,11 @@ def handle (c obs : String) : String × Bool × String :=
       if inDomain cs then
         let want := "ok " ++ fmtRows rows
         (model, obs == want, if obs == want then "" else s!"sorted inputs: want {want}")
+      else if (cs.variant == "jnf" || cs.variant == "tsf" || cs.variant.startsWith "dsf") && !(cs.ins.all (isNonDec ekey)) then
+        -- `C09_full_unsorted_err`: the full join pulls every element, so an input that is not non-decreasing must
+        -- end in the sortedness error (never a silently wrong result)
+        let ok := obs.startsWith "err stream-unsorted:"
+        (model, ok, if ok then "" else "unsorted input of a full join must end in err stream-unsorted:<i>")
       else (model, true, "outside the property's domain (unsorted input)")
     | _, _ => ("bad-case", false, "unknown variant / wrong number of inputs")
 
